@@ -74,6 +74,7 @@ def run(chk: core.Check, tier: str, seed: int) -> None:
             member["l"] = a
         if b is not NOTHING:
             member["r"] = b
+        member["n"] = rng.choice([1, True, None, 2.5])          # something without a length
         doc = {"t": [member], "c": [x for x in (a, b) if x is not NOTHING]}
         try:
             edoc = core.enc_value(doc)
@@ -82,6 +83,11 @@ def run(chk: core.Check, tier: str, seed: int) -> None:
             continue
         prods_l = ["@.l", "value(@.l)"]
         prods_r = ["@.r", "value(@.r)"]
+        # Nothing from a function: length() of something without a length, on either side
+        if a is NOTHING:
+            prods_l += ["length(@.l)", "length(@.n)"]
+        if b is NOTHING:
+            prods_r += ["length(@.r)", "length(@.n)", "length($.c[5])"]
         if a is not NOTHING:
             prods_l.append("$.c[0]")
             if not isinstance(a, (list, dict)):
@@ -109,13 +115,15 @@ def run(chk: core.Check, tier: str, seed: int) -> None:
                 member["l"] = a
             if b is not NOTHING:
                 member["r"] = b
+            member["q"] = 7                                      # length(@.q) is Nothing
             doc = {"t": [member], "c": [x for x in (a, b) if x is not NOTHING]}
             try:
                 edoc = core.enc_value(doc)
             except core.Unrepresentable:
                 continue
             for pl, pr in (("@.l", "@.r"), ("value(@.l)", "@.r"), ("@.l", "value(@.r)"), ("value(@.l)", "value(@.r)"),
-                           ("$.t[0].l", "$.t[0].r")):
+                           ("$.t[0].l", "$.t[0].r"), ("length(@.q)", "@.r"), ("@.l", "length(@.q)"), ("length(@.q)", "value(@.r)"),
+                           ("length(@.q)", "length(@.zz)")):
                 for op in OPS:
                     recs.append(impl.rec_find(jp, f"$.t[?{pl} {op} {pr}]", doc, edoc=edoc))
             if a is not NOTHING and not isinstance(a, (list, dict)):
